@@ -353,6 +353,14 @@ def coq_case(case, o):
     return f"({vars_}, {m}, {{| o_files := {files}; o_stp := {stp}; o_vf := {vf} |}})"
 
 def harness_side(case, o):
+    """never raises: an exception while digesting the real code's output means the output left the model's domain (e.g. two
+    parameters in one slot) and is a complaint about this case"""
+    try:
+        return harness_side_(case, o)
+    except Exception as e:
+        return [f"output of the real code cannot be digested ({type(e).__name__}: {e})"]
+
+def harness_side_(case, o):
     """facts that are not part of the Coq record: returns a list of complaints (each one is a disagreement with the property)"""
     bad = []
     if o["call_head"] != ["args(14)", "y", "dy"]: bad.append(f"call head {o['call_head']}")
@@ -365,6 +373,9 @@ def harness_side(case, o):
     if "func_run" in o:
         y = [Fr(v) for v in case["y_test"]]; par = [Fr(v) for v in case["par_test"]]
         slot = {n: k for k, n in next(iter(o["files"].values()))["parnames"]}
+        if len(set(slot.values())) < len(o["stpnt"]) or set(slot) != {n for _, _, n in o["stpnt"]}:
+            bad.append(f"parnames does not give every parameter of STPNT its own slot: {sorted(slot.items(), key=lambda kv: kv[1])}")
+            slot = {n: k for k, _, n in o["stpnt"]}
         def dterm(t, wrt_p=None, wrt_y=None):
             c, ps, ys = t
             fac = [par[slot[p] - 1] for p in ps] + [y[i] for i in ys]; keys = [("p", p) for p in ps] + [("y", i) for i in ys]
@@ -393,16 +404,22 @@ def model_compare(ctx, cases, outs, tag):
     """returns (bad_vs_Impl, bad_vs_Spec, wf_false, f32_false) index lists"""
     res = [[], [], [], []]
     shard = 40
-    for s in range(0, len(cases), shard):
-        terms = [coq_case(c, o) for c, o in zip(cases[s:s + shard], outs[s:s + shard])]
+    terms_all, idx_ok = [], []
+    for i, (c, o) in enumerate(zip(cases, outs)):
+        try:
+            terms_all.append(coq_case(c, o)); idx_ok.append(i)
+        except Exception:            # output that cannot even be written as a term: disagrees with Impl and Spec
+            res[0].append(i); res[1].append(i)
+    for s in range(0, len(terms_all), shard):
+        terms = terms_all[s:s + shard]
         body = ("Definition cases : list case := " + clist(terms) + ".\n"
                 "Eval vm_compute in (mismatches okI cases).\nEval vm_compute in (mismatches okS cases).\n"
                 "Eval vm_compute in (mismatches guard_wf cases).\nEval vm_compute in (mismatches guard_f32 cases).\n")
         ls = parse_nat_lists(coq_eval(ctx, f"c18_{tag}_{s}", header(ctx), body))
         assert len(ls) == 4, ls
         for k in range(4):
-            res[k] += [s + i for i in ls[k]]
-    return res
+            res[k] += [idx_ok[s + i] for i in ls[k]]
+    return [sorted(r) for r in res]
 
 def diagnostic(ctx, case):
     r = run_impl(ctx, "c18", "impl", [case], nworkers=1, per_case_timeout=180)[0]
@@ -421,14 +438,14 @@ def diagnostic(ctx, case):
 
 def fails(ctx, case, tag):
     r = run_impl(ctx, "c18", "impl", [case], nworkers=1, per_case_timeout=180)[0]
-    if "err" in r:
+    if not isinstance(r, dict) or "err" in r:
         return True
     _, badS, _, _ = model_compare(ctx, [case], [r], tag)
     return bool(badS) or bool(harness_side(case, r))
 
 def shrink(ctx, case):
     """drop scenarios/overrides, then parameters from the end of the declaration (keeps the count that matters as small as possible)"""
-    best, budget = case, 12
+    best, budget = case, 14
     def attempt(c):
         nonlocal best, budget
         if budget > 0:
@@ -438,11 +455,17 @@ def shrink(ctx, case):
                 return True
         return False
     attempt(dict(best, scenarios=None, overrides={}, scen_as_str=False))
+    if best.get("ops"):
+        return best
+    def truncated(c, k):
+        drop = {p for p, _ in c["params"][k:]}
+        return dict(c, params=c["params"][:k], decl=[d for d in c["decl"] if d not in drop],
+                    eqs=[[t for t in terms if not (drop & set(t[1]))] for terms in c["eqs"]])
+    hint = getattr(ctx, "c18_hint", None)          # smallest parameter count at which the slot function leaves the closed form
+    if hint is not None and hint < len(best["params"]):
+        attempt(truncated(best, hint))
     while budget > 0 and best["params"]:
-        drop = best["params"][-1][0]
-        c = dict(best, params=best["params"][:-1], decl=[d for d in best["decl"] if d != drop],
-                 eqs=[[t for t in terms if drop not in t[1]] for terms in best["eqs"]])
-        if not attempt(c):
+        if not attempt(truncated(best, len(best["params"]) - 1)):
             break
     return best
 
@@ -482,6 +505,20 @@ def header_e2(ctx):
     h = h.replace("E2_LB2", E2_LAB2[1] if lab2 else "Definition ok_lab2 (c : dict * list string * list string * list string) := true.")
     h = h.replace("E2_GEN", E2_GEN[1] if gen else "Definition ok_gen (c : nat * (Z * Z) * list Z) := true.")
     return h.replace("E2_LAB", E2_LAB[1] if lab else "Definition ok_lab (c : dict * list string * list string * list string) := true.")
+
+def slots_facts(out):
+    return dict(duplicates=sorted({v for v in out if out.count(v) > 1}), in_reserved_10_14=[v for v in out if 10 <= v <= 14],
+                not_increasing=[i for i in range(1, len(out)) if out[i] <= out[i - 1]])
+
+def check_slots_case(ctx, case):
+    """one call of the real _auto_param_indices with `n` parameters vs the closed form, decided inside Coq; returns (differs, output)"""
+    o = run_impl(ctx, "c18", "impl_slots", [case], nworkers=1)[0]
+    if "err" in o:
+        return True, o
+    body = (f"Eval vm_compute in (mismatches (fun c : nat * list Z => if list_eq_dec Z.eq_dec (slots (fst c)) (snd c) then true else false) "
+            f"[({cnat(case['n'])}, {clist([cz(v) for v in o['out']])})]).\n")
+    ls = parse_nat_lists(coq_eval(ctx, "c18_slots1", "From Coq Require Import List ZArith.\nFrom PV Require Import Auto Corr.\nImport ListNotations.", body))
+    return bool(ls[0]), o
 
 def e2_streams(ctx):
     """returns (cases, results, bad_translator, bad_closed_form): bad_translator = the regenerated Gallina function disagrees
@@ -530,18 +567,34 @@ def check(ctx):
     if ctx.replay:
         rp = json.load(open(ctx.replay))
         cases = [rp["case"]] if "case" in rp else []
+        if cases and cases[0].get("kind") == "slots":          # replay of a closed-form counterexample: one call of _auto_param_indices
+            differs, o = check_slots_case(ctx, cases[0])
+            ctx.note(f"replay: _auto_param_indices with {cases[0]['n']} parameters returns {o.get('out', o)}; leaves the closed form: {differs}")
+            if differs:
+                violation(ctx, write_replay(ctx, "counterexample", dict(case=cases[0], implementation_output=o, what=rp.get("what"))))
+            return
     else:
         cases = load_corpus("C18")
         k = len(cases)
         cases += [gen_case(ctx.rng, k + i, n=n, compile_=thorough) for i, n in enumerate(range(0, 26))]     # every count 0..25 once
         k = len(cases)
         cases += [gen_case(ctx.rng, k + i, compile_=thorough and i < n_comp) for i in range(n_plain)]
+        k = len(cases)                                           # nodes of three operators with an algebraic-only operator in the middle
+        n_chain, n_chain_comp = (max(1, int(300 * scale)), max(1, int(40 * scale))) if thorough else (24, 2)
+        cases += [gen_chain(ctx.rng, k + i, compile_=i < n_chain_comp, big=i % 4 == 3) for i in range(n_chain)]
         k = len(cases)
         if not thorough:
             cases += [gen_case(ctx.rng, k + i, n=n, compile_=True) for i, n in enumerate([3, 9, 10, 12, 17, 25][:n_comp])]
         else:
             cases += [gen_case(ctx.rng, k + i, compile_=True, inexact=True) for i in range(6)]            # guard-violating stream
     e2_cases, bad_tr, bad_cf, dup = ([], [], [], []) if ctx.replay else e2_streams(ctx)
+    if bad_cf:   # the slot function itself left the closed form: the smallest parameter count is the replay, and the hint for shrinking models
+        c, o = min(bad_cf, key=lambda co: co[0]["n"])
+        ctx.c18_hint = c["n"]
+        violation(ctx, write_replay(ctx, "counterexample", dict(
+            case=c, implementation_output=o, facts=slots_facts(o["out"]), smallest_failing_parameter_count=c["n"],
+            what="FortranBackend._auto_param_indices leaves the closed form slot(i) = i+1 (i<9) | i+6 (strictly increasing, distinct, outside 10..14) "
+                 f"for {c['n']} parameters; all smaller counts agree")))
     outs = run_impl(ctx, "c18", "impl", cases, per_case_timeout=180)
     crashed = [i for i, r in enumerate(outs) if "err" in r]
     good = [i for i in range(len(cases)) if i not in crashed]
@@ -567,10 +620,6 @@ def check(ctx):
              problem=problem, guard_viol=guard_viol, spec_name="Auto.spec_emit (one slot per parameter in declaration order, used by every view)",
              impl_name="Auto.emit", shrink=lambda c: shrink(ctx, c), show=lambda c: diagnostic(ctx, c),
              witness_check=lambda f: fails(ctx, dict(json.load(open(os.path.join(VERIF, f["witness"]))), id="w"), "wit"))
-    if bad_cf and not ctx.violations:
-        c, o = bad_cf[0]
-        violation(ctx, write_replay(ctx, "counterexample", dict(what="FortranBackend._auto_param_indices leaves the closed form slot(i) = i+1 (i<9) | i+6",
-                                                                 parameter_count=c["n"], implementation_output=o)))
     if bad_tr and not ctx.violations:
         violation(ctx, write_replay(ctx, "correspondence", dict(broken="E2: a regenerated Gallina function disagrees with the Python function it was generated from "
                                                                         "(translator harness/py2v.py)", inputs=bad_tr[:3])), no_input=True)
@@ -580,10 +629,12 @@ def check(ctx):
     hist = dict(parameter_counts=sorted({len(c["params"]) for c in cases}), crossing_reserved_range=sum(1 for c in cases if len(set(used_params(c))) >= 10),
                 compiled=sum(1 for c in cases if c["compile"]), with_unused_parameters=sum(1 for c in cases if len(set(used_params(c))) < len(c["params"])),
                 scenario_sets=sorted({str(c["scenarios"]) for c in cases}), with_overrides=sum(1 for c in cases if c["overrides"]),
-                guard_violating=len(f32_false), e2_validation_calls=len(e2_cases))
+                guard_violating=len(f32_false), e2_validation_calls=len(e2_cases), three_operator_nodes=sum(1 for c in cases if c.get("ops")))
     write_evidence(ctx, evaluations=len(cases) + len(e2_cases), distinct_nontrivial=len(nt),
-                   rule="one-operator scalar models, 1-3 state variables, 0-25 parameters with dyadic values, polynomial right-hand sides, random declaration "
-                        "order (state variables interleaved), shuffled order of first use, unused parameters, scenario selections and constant overrides; "
+                   rule="scalar models with 0-25 parameters (dyadic values, polynomial right-hand sides): (a) one operator, 1-3 state variables, random declaration "
+                        "order (state variables interleaved), shuffled order of first use, unused parameters; (b) nodes of three operators src -> alg -> dyn where alg is "
+                        "ALGEBRAIC ONLY and uses its >= 2 parameters in an order different from their declaration (declaration order of the model = operators in node "
+                        "order, variables in declaration order within each); scenario selections and constant overrides; "
                         "non-trivial = at least 10 parameters are used (slots cross the reserved range) or the order of first use differs from the "
                         "declaration order; distinct = distinct canonical JSON",
                    samples=[dict(equations=eq_strings(c), decl=c["decl"], scenarios=c["scenarios"], overrides=c["overrides"]) for c in cases[1:3]],
@@ -593,4 +644,5 @@ def check(ctx):
                                  "gfortran + f2py for the compiled observations; float64 arithmetic is exact on the generated dyadic data"],
                    assumptions=["Auto.wf: declared variables are registered first and are distinct; every argument of the vector field is declared",
                                 "compiled STPNT values: exact only for values representable in binary32 (guard all_values_f32_exact; finding C18-stpnt-single-precision)",
+                                "declaration order of a node = its operators in node order, each operator's variables in declaration order (Spec input `vars`)",
                                 "vector-field equality is tied by execution (E1) for polynomial right-hand sides; sympy/gfortran are not modelled"])
